@@ -39,6 +39,8 @@ type Run struct {
 	broken       []string
 	notes        map[string]interface{}
 	known        []Known
+	childViols   []childViolation
+	childOut     string
 }
 
 type Known struct {
@@ -82,7 +84,8 @@ func Start(id, level string) *Run {
 	r := &Run{ID: id, Tier: Tier(), Seed: Seed(), Level: level, start: time.Now(),
 		distinct: map[uint64]struct{}{}, counters: map[string]int64{}, sets: map[string]map[string]struct{}{},
 		knownHit: map[string]int{}, notes: map[string]interface{}{}, maxSamples: 6}
-	if b, err := os.ReadFile(filepath.Join(VerifDir, "known_findings.json")); err == nil {
+	r.childOut = os.Getenv("VERIF_CHILD_OUT")
+	if b, err := os.ReadFile(filepath.Join(VerifDir, "known_findings.json")); err == nil && r.childOut == "" {
 		var kf knownFile
 		if json.Unmarshal(b, &kf) == nil {
 			for _, k := range kf.Findings {
@@ -191,6 +194,12 @@ func (r *Run) Broken(why string) {
 func (r *Run) Violation(key, what string, replay interface{}) {
 	r.mu.Lock()
 	defer r.mu.Unlock()
+	if r.childOut != "" {
+		if len(r.childViols) < 50 {
+			r.childViols = append(r.childViols, childViolation{key, what, replay})
+		}
+		return
+	}
 	for _, k := range r.known {
 		if k.Key == key {
 			if r.knownHit[key] == 0 {
@@ -201,7 +210,7 @@ func (r *Run) Violation(key, what string, replay interface{}) {
 		}
 	}
 	r.violations++
-	if r.violations > 25 {
+	if r.violations > 5 {
 		return
 	}
 	dir := filepath.Join(VerifDir, "replays")
@@ -232,6 +241,10 @@ func (r *Run) Violations() int {
 func (r *Run) Finish(rule string, assumptions []string) int {
 	r.mu.Lock()
 	defer r.mu.Unlock()
+	if r.childOut != "" {
+		r.dumpChild(r.childOut)
+		return 0
+	}
 	cov := map[string]interface{}{
 		"evaluations":         r.evals,
 		"distinct_nontrivial": len(r.distinct),
